@@ -90,7 +90,7 @@ class DTFTTransformer(BilateralForwardTransformer):
         result = func(f / scale) / abs(scale)
 
         if shift != 0:
-            result = result * sym.exp(2 * sym.I * sym.pi * f * shift / scale)
+            result = result * sym.exp(2 * sym.I * sym.pi * f * dt * shift / scale)
         # Perhaps return X_(1/dt)(f) but how to denote?
         return self.add_images(result, f)
 
